@@ -251,7 +251,7 @@ R  == Run(c.prog, c.bal)
 ID == Ideal(c.prog, c.bal)
 
 \* the compiler-reject family is rejected, the other structured families are accepted
-FamilyOk(r) == (c.fam = "X" => r.err = "compile") /\ (c.fam \in {"E1", "E2", "E3", "E4", "E5", "A"} => r.err = "")
+FamilyOk(r) == (c.fam = "X" => r.err = "compile") /\ (c.fam \in {"E1", "E2", "E3", "E4", "E5"} => r.err # "compile") /\ (c.fam = "A" => r.err = "")
 
 \* The single invariant used by the checks: all theorems on the case, then print it with its outcome
 \* (Run and Ideal are evaluated once per case).
